@@ -369,6 +369,15 @@ def cases(draw):
         if mode == 0:
             bounds = [draw(bound(rshape[i])) for i in range(nr)]
             base = bounds
+        elif mode == 2:
+            # one dimension switches between a scalar and a ranged bound, everything else stays (slab <-> plane)
+            i = draw(st.integers(0, nr - 1))
+            if isinstance(bounds[i], list):
+                bounds[i] = float(draw(st.integers(-1, rshape[i])))
+            else:
+                lo = draw(st.integers(-1, rshape[i] - 1))
+                bounds[i] = [float(lo), float(lo + draw(st.integers(0, 3))), draw(st.integers(1, 4))]
+            base = bounds
         elif mode == 1:
             # change one scalar bound only (slicing through a cube)
             scal = [i for i, b in enumerate(bounds) if not isinstance(b, list)]
